@@ -114,9 +114,15 @@ Definition H_StopIteration (e : exn) := isinstance e "StopIteration".
 Definition H_PreContractError (e : exn) := isinstance e "PreContractError".
 Definition H_TypeError (e : exn) := isinstance e "TypeError".
 
+(* `exception=` argument of a contract: a class or an instance *)
+Inductive excspec := EClass (c : cls) | EInst (c : cls) (args : list value).
+Definition exc_is_instance (x : excspec) : bool := match x with EInst _ _ => true | EClass _ => false end.
+Definition exc_class (x : excspec) : cls := match x with EInst c _ | EClass c => c end.
+Definition exc_args (x : excspec) : list value := match x with EInst _ a => a | EClass _ => [] end.
+
 (* ---------- process state ---------- *)
 Definition pid := nat.          (* a HasPatcher object, by identity *)
-Inductive stream := Real | Patched (owner : pid) (err : exn).
+Inductive stream := Real | Patched (owner : pid) (err : excspec).   (* PatchedStringIO / PatchedSocket carry what to raise *)
 Inductive effkind := KOut | KErr | KSock.
 Inductive event :=
 | EvBody (f : fid) (a : pargs) (k : pkwargs)      (* the undecorated function body started, with what it received *)
@@ -124,9 +130,15 @@ Inductive event :=
 | EvEffect (k : effkind)                           (* an allowed effect reached the real stream / socket *)
 | EvBlocked (k : effkind) (owner : pid)            (* an effect hit a patched stream *)
 | EvForeign (tag : nat)                            (* a foreign decorator layer ran *)
-| EvResume (h : nat).                              (* an inner generator was resumed *)
+| EvResume (h : nat)                               (* an inner generator was resumed *)
+| EvBound (f : fid) (b : list (string * value))     (* the body of f started with this binding of its parameters *)
+| EvRaised (tag : Z) (id : nat).                   (* user code created the exception object `id`, labelled tag *)
 
-Record slot := { sv_sock : stream; sv_out : stream; sv_err : stream; sv_depth : nat }.
+Record slot := { sv_sock : stream; sv_out : stream; sv_err : stream; sv_depth : nat }.   (* true_socket, true_stdout, true_stderr, _depth *)
+Definition slot_sock s (x : slot) := {| sv_sock := s; sv_out := sv_out x; sv_err := sv_err x; sv_depth := sv_depth x |}.
+Definition slot_out s (x : slot) := {| sv_sock := sv_sock x; sv_out := s; sv_err := sv_err x; sv_depth := sv_depth x |}.
+Definition slot_err s (x : slot) := {| sv_sock := sv_sock x; sv_out := sv_out x; sv_err := s; sv_depth := sv_depth x |}.
+Definition slot_depth n (x : slot) := {| sv_sock := sv_sock x; sv_out := sv_out x; sv_err := sv_err x; sv_depth := n |}.
 Definition slot0 := {| sv_sock := Real; sv_out := Real; sv_err := Real; sv_depth := 0 |}.
 Record st := { debug : bool; removed : bool;
                s_out : stream; s_err : stream; s_sock : stream;
@@ -142,7 +154,7 @@ Definition set_err s (w : st) := {| debug := debug w; removed := removed w; s_ou
 Definition set_sock s (w : st) := {| debug := debug w; removed := removed w; s_out := s_out w; s_err := s_err w; s_sock := s; slots := slots w; trace := trace w; next_id := next_id w |}.
 Definition set_slots l (w : st) := {| debug := debug w; removed := removed w; s_out := s_out w; s_err := s_err w; s_sock := s_sock w; slots := l; trace := trace w; next_id := next_id w |}.
 Definition emit ev (w : st) := {| debug := debug w; removed := removed w; s_out := s_out w; s_err := s_err w; s_sock := s_sock w; slots := slots w; trace := (trace w ++ [ev])%list; next_id := next_id w |}.
-Definition bump (w : st) := {| debug := debug w; removed := removed w; s_out := s_out w; s_err := s_err w; s_sock := s_sock w; slots := slots w; trace := trace w; next_id := S (next_id w) |}.
+Definition bump (w : st) := {| debug := debug w; removed := removed w; s_out := s_out w; s_err := s_err w; s_sock := s_sock w; slots := slots w; trace := trace w; next_id := S (S (next_id w)) |}.
 
 Fixpoint nlookup {X} (n : nat) (l : list (nat * X)) : option X :=
   match l with [] => None | (k, v) :: t => if Nat.eqb k n then Some v else nlookup n t end.
